@@ -263,6 +263,7 @@ Definition r_load (to_load existing : ctx) (lc : N) : res (list rcode * N) :=
    "some print statement exists" is exactly "the Rust call panics, there or earlier". *)
 Definition rv_backend : backend rcode rtemp := {|
   b_label := LAB;
+  b_mark := fun _ => [];
   b_jump := r_jump;
   b_jump_label := r_jump_label;
   b_jump_label_fixed := r_jump_label;
